@@ -92,6 +92,13 @@ SELECTED = [
     ("Specifier.contains", "packaging.specifiers", "Specifier.contains"),
     ("Specifier.filter", "packaging.specifiers", "Specifier.filter"),
 ]
+# --- x2: second round (small gaps of round one; utils.py; the rest of tags.py; platform code; SpecifierSet)
+SELECTED += [
+    ("_BaseVersion.__ne__", "packaging.version", "_BaseVersion.__ne__"),
+    ("Tag.__str__", "packaging.tags", "Tag.__str__"),
+    ("Tag.__eq__", "packaging.tags", "Tag.__eq__"),
+    ("Tag.__hash__", "packaging.tags", "Tag.__hash__"),
+]
 
 # classes whose instances the translated code handles as records `PyVal.obj <class name> <fields>`; attribute access on
 # a value of one of these classes is resolved through the class's MRO (property -> translated getter, method ->
@@ -255,7 +262,8 @@ class Fn:
                 return self.owner
             for a in args + self.node.args.kwonlyargs:
                 if a.arg == e.id and e.id not in self.param_assigned_names():
-                    return self.ann_class(a.annotation)
+                    c = self.ann_class(a.annotation)
+                    return c if c is not None else self.narrowed_class(e)      # --- x2
             # a local assigned exactly once, from an expression of known class
             key = ("local", e.id)
             if key in self._class_guard:
@@ -297,6 +305,21 @@ class Fn:
                 for k in a.__mro__:
                     if self.ctx.is_tracked(k) and k in b.__mro__:
                         return k
+        return None
+
+    # --- x2: `if not isinstance(p, C): return/raise …` at the top level of the body narrows parameter p to C afterwards
+    def narrowed_class(self, e):
+        for st in self.node.body:
+            if getattr(st, "lineno", 0) >= getattr(e, "lineno", 0):
+                break
+            if isinstance(st, ast.If) and not st.orelse and not _falls_through(st.body) \
+                    and isinstance(st.test, ast.UnaryOp) and isinstance(st.test.op, ast.Not):
+                t = st.test.operand
+                if isinstance(t, ast.Call) and isinstance(t.func, ast.Name) and t.func.id == "isinstance" and len(t.args) == 2 \
+                        and isinstance(t.args[0], ast.Name) and t.args[0].id == e.id and isinstance(t.args[1], ast.Name):
+                    v = self.globals.get(t.args[1].id)
+                    if inspect.isclass(v) and self.ctx.is_tracked(v):
+                        return v
         return None
 
     def param_assigned_names(self):
